@@ -228,7 +228,7 @@ def _index_recomputed(ss: FuncModel):
             probs.append(f"key computed from `{text(k.args[0])}`, not from the space of the enumerated node")
         if text(val) not in text(tgt):
             probs.append("value is not the enumerated node id")
-    it = text(itx)
+    it = text(ss.deref(itx, at))
     if not (it in (f"{state_p}['node_indices'].values()", "self.dag.nodes", "self.dag.nodes()", "self.node_ids()",
                    "self.dag.nodes(data=True)", "range(len(self))")):
         probs.append(f"the index is rebuilt over `{it}`, not over all nodes")
